@@ -697,6 +697,27 @@ def reconcile_unreachable(pre, iroot, mroot, op):
             pass
 
 
+def reconcile_kw_order(pre, before_named):
+  """A broadcast that CREATES several **kwargs entries in one Buildable (tagged
+  names that had no value) creates them in an order the property does not fix
+  (fiddle walks its tag table, whose order also remembers refused tag
+  operations).  The model adopts fiddle's order for exactly those new names;
+  everything else about the entries was already compared."""
+  pre_i, pre_m = pre
+  if len(pre_i) != len(pre_m):
+    return
+  for (ni, nm), old in zip(zip(pre_i, pre_m), before_named):
+    fresh = [n for n in nm.named if n not in old]
+    if len(fresh) < 2:
+      continue
+    order = [n for n in ni.__arguments__ if n in fresh]
+    if sorted(order) != sorted(fresh):
+      continue       # a real difference: leave it for the comparison
+    vals = {n: nm.named.pop(n) for n in fresh}
+    for n in order:
+      nm.named[n] = vals[n]
+
+
 COPY_OPS = ('copy', 'cast', 'copy_with', 'deepcopy', 'pickle', 'json',
             'deepcopy_with', 'diff_tags')
 EDIT_OPS = ('setattr', 'delattr', 'setitem', 'delitem')
@@ -780,6 +801,7 @@ def run(case):
       mroot_, tag_ = Mo.sels[op['s'] % len(Mo.sels)]
       iroot_ = I.sels[op['s'] % len(I.sels)].cfg
       pre = (enum_nodes(iroot_), enum_nodes(mroot_), iroot_, mroot_, tag_)
+    pre_named = [set(n.named) for n in pre[1]] if pre is not None else None
     # ---- model ----------------------------------------------------------
     try:
       mret = model_apply(Mo, op)
@@ -805,6 +827,7 @@ def run(case):
       del I.roots[n_roots:]
     if pre is not None and valid and raised is None:
       reconcile_unreachable(pre[:2], pre[2], pre[3], dict(op, tag=pre[4]))
+      reconcile_kw_order(pre[:2], pre_named)
     after_i = C.canon(tuple(I.roots))
     after_m = C.canon(tuple(Mo.roots))
     desc = f'op #{idx} {op}'
